@@ -200,3 +200,12 @@ func vTransOK(t pr.SDimensions) bool {
 //@   call SetTrimBox#1 assert[inside-media] mediaBox[0] <= arg1 && mediaBox[1] <= arg2 && arg3 <= mediaBox[2] && arg4 <= mediaBox[3]
 //@   call SetBleedBox#1 assert[between-media-and-trim] mediaBox[0] <= arg1 && arg1 <= trimLeft && mediaBox[1] <= arg2 && arg2 <= trimTop && trimRight <= arg3 && arg3 <= mediaBox[2] && trimBottom <= arg4 && arg4 <= mediaBox[3]
 //@   call SetBleedBox#1 assert[at-most-10] trimLeft - arg1 <= 10 && trimTop - arg2 <= 10 && arg3 - trimRight <= 10 && arg4 - trimBottom <= 10
+
+// C14 (every number passed to the backend is finite): drawDots, the helper of clipBorderSegment that clips
+// the dots of one rounded corner. A corner without dots (square, or small against the dash) draws nothing,
+// adds the half dash to the straight part and shifts nothing: the offset is the quotient of two angle
+// differences that are both zero there, so it must not be computed.
+//@ func clipBorderSegment$3
+//@   props C14
+//@   modifies anything
+//@   ensures[corner-without-dots] dashes == 0 ==> result0 == line + 1 && result1 == 0
